@@ -39,13 +39,23 @@ _t, _i = z3.Const('t', T), z3.Int('i')
 z3.RecAddDefinition(nleaves, [_t], z3.If(T.is_Leaf(_t), 1, z3.If(T.is_Un(_t), nleaves(T.child(_t)), nleaves(T.left(_t)) + nleaves(T.right(_t)))))
 z3.RecAddDefinition(headpos, [_t], z3.If(T.is_Leaf(_t), 0, z3.If(T.is_Un(_t), headpos(T.child(_t)),
                                                                 z3.If(T.hl(_t), headpos(T.left(_t)), nleaves(T.left(_t)) + headpos(T.right(_t))))))
-_nl = nleaves(T.left(_t))
-z3.RecAddDefinition(dep, [_t, _i], z3.If(
-    T.is_Leaf(_t), -1,
-    z3.If(T.is_Un(_t), dep(T.child(_t), _i),
-          z3.If(_i < _nl,
-                z3.If(_i == headpos(T.left(_t)), z3.If(T.hl(_t), -1, _nl + headpos(T.right(_t))), dep(T.left(_t), _i)),
-                z3.If(_i - _nl == headpos(T.right(_t)), z3.If(T.hl(_t), headpos(T.left(_t)), -1), _nl + dep(T.right(_t), _i - _nl))))))
+def dep_body(t, i):
+    nl = nleaves(T.left(t))
+    return z3.If(
+        T.is_Leaf(t), -1,
+        z3.If(T.is_Un(t), dep(T.child(t), i),
+              z3.If(i < nl,
+                    z3.If(i == headpos(T.left(t)), z3.If(T.hl(t), -1, nl + headpos(T.right(t))), dep(T.left(t), i)),
+                    z3.If(i - nl == headpos(T.right(t)), z3.If(T.hl(t), headpos(T.left(t)), -1), nl + dep(T.right(t), i - nl)))))
+
+
+z3.RecAddDefinition(dep, [_t, _i], dep_body(_t, _i))
+
+
+def unfold_dep(I, e):
+    """the definition of dep at the node e for all positions (not unfolded under a quantifier by the solver itself)"""
+    i = z3.Int('i!ud')
+    I.ctx.assume(z3.ForAll([i], dep(e, i) == dep_body(e, i)))
 
 
 class SymTree:
@@ -196,23 +206,44 @@ class FilteredCount:
         I.ctx.assume(z3.Implies(z3.ForAll([a], z3.Implies(inr(a), z3.Not(p(a)))), cnt == 0))
         I.ctx.assume(z3.ForAll([a], z3.Implies(z3.And(inr(a), p(a), z3.ForAll([b], z3.Implies(z3.And(inr(b), b != a), z3.Not(p(b))))), cnt == 1)))
         I.ctx.assume(z3.ForAll([a, b], z3.Implies(z3.And(inr(a), inr(b), a != b, p(a), p(b)), cnt >= 2)))
+        for h in getattr(I.ctx, 'count_hints', ()):
+            # the "exactly one" axiom instantiated at a position the path knows about (an instance of the axiom above)
+            I.ctx.assume(z3.Implies(z3.And(inr(h), p(h), z3.ForAll([b], z3.Implies(z3.And(inr(b), b != h), z3.Not(p(b))))), cnt == 1))
         return Z(cnt)
 
 
 REL = 'depccg/printer/conll.py'
 
 
-def rec_post(arr0, n0, arr1, n1, t, ret):
-    """contract of _resolve_dependencies.rec(node) on the shared list `results`"""
+def heads_at(arr1, n0, t, i):
+    k = nleaves(t)
+    return z3.Implies(z3.And(i >= 0, i < k),
+                      z3.If(i == headpos(t), z3.Select(arr1, n0 + i) == -1,
+                            z3.And(z3.Select(arr1, n0 + i) == n0 + dep(t, i), dep(t, i) >= 0, dep(t, i) < k, dep(t, i) != i)))
+
+
+def rec_clauses(arr0, n0, arr1, n1, t, ret, ih=()):
+    """contract of _resolve_dependencies.rec(node) on the shared list `results`.
+    ih: the contract applications made on this path (arr_before, n_before, arr_after, subtree); the universally quantified clauses are proved at a fresh position
+    with the hypotheses of those applications instantiated at that same absolute position (instances of facts already on the path: sound, and robust for the solver)"""
     i, j = z3.Int('i!p'), z3.Int('j!p')
     k = nleaves(t)
-    return z3.And(
-        k >= 1, n1 == n0 + k,
-        ret == n0 + headpos(t), headpos(t) >= 0, headpos(t) < k,
-        z3.ForAll([j], z3.Implies(z3.And(j >= 0, j < n0), z3.Select(arr1, j) == z3.Select(arr0, j))),            # frame: nothing before the subtree changes
-        z3.ForAll([i], z3.Implies(z3.And(i >= 0, i < k),
-                                  z3.If(i == headpos(t), z3.Select(arr1, n0 + i) == -1,
-                                        z3.And(z3.Select(arr1, n0 + i) == n0 + dep(t, i), dep(t, i) >= 0, dep(t, i) < k, dep(t, i) != i)))))
+    i0, j0 = z3.Int('i0!skolem'), z3.Int('j0!skolem')
+    inst = []
+    for (a0, m0, a1, sub) in ih:
+        for pos in (n0 + i0, j0):
+            inst.append(heads_at(a1, m0, sub, pos - m0))
+            inst.append(z3.Implies(z3.And(pos >= 0, pos < m0), z3.Select(a1, pos) == z3.Select(a0, pos)))
+    hyp = z3.And(inst) if inst else z3.BoolVal(True)
+    return [('length', z3.And(k >= 1, n1 == n0 + k)),
+            ('returns-head', z3.And(ret == n0 + headpos(t), headpos(t) >= 0, headpos(t) < k)),
+            ('frame', z3.Implies(hyp, z3.Implies(z3.And(j0 >= 0, j0 < n0), z3.Select(arr1, j0) == z3.Select(arr0, j0))) if ih else
+             z3.ForAll([j], z3.Implies(z3.And(j >= 0, j < n0), z3.Select(arr1, j) == z3.Select(arr0, j)))),            # nothing before the subtree changes
+            ('heads', z3.Implies(hyp, heads_at(arr1, n0, t, i0)) if ih else z3.ForAll([i], heads_at(arr1, n0, t, i)))]
+
+
+def rec_post(*a):
+    return z3.And([g for _, g in rec_clauses(*a)])
 
 
 class ResolveRec(Contract):
@@ -232,12 +263,13 @@ class ResolveRec(Contract):
             lst = SymIntList(arr, n)
             self._env.set('results', lst)
             self._pre = (arr, n, t, lst)
+            unfold_dep(I, t)
             return [SymTree(t)], {}, [n >= 0], None
         yield Case('any-node', build)
 
     def post(self, I, case, args, result):
         arr0, n0, t, lst = self._pre
-        return rec_post(arr0, n0, lst.arr, lst.n, t, I.ex(result))
+        return rec_clauses(arr0, n0, lst.arr, lst.n, t, I.ex(result), ih=getattr(I.ctx, 'rec_ih', ()) )
 
     def apply(self, I, args, kwargs, node):
         f = I.callee
@@ -255,6 +287,8 @@ class ResolveRec(Contract):
         ret = I.fresh('head', I_)
         lst.arr, lst.n = arr1, n0 + nleaves(t)
         I.ctx.assume(rec_post(arr0, n0, arr1, lst.n, t, ret))
+        I.ctx.rec_ih = list(getattr(I.ctx, 'rec_ih', [])) + [(arr0, n0, arr1, t)]
+        I.ctx.count_hints = list(getattr(I.ctx, 'count_hints', [])) + [ret]
         return Z(ret)
 
 
